@@ -727,6 +727,18 @@ func (g *storeGen) genMatchers(blocks []specBlock) []specMatcher {
 	if r.Chance(1, 15) {
 		n = 0
 	}
+	// values that occur under a name (stored or external): equality matchers mostly ask for those
+	present := map[int][]int{}
+	for _, b := range blocks {
+		for _, l := range b.ext {
+			present[l.n] = append(present[l.n], l.v)
+		}
+		for _, s := range b.series {
+			for _, l := range s.lset {
+				present[l.n] = append(present[l.n], l.v)
+			}
+		}
+	}
 	var out []specMatcher
 	for i := 0; i < n; i++ {
 		var name int
@@ -742,11 +754,14 @@ func (g *storeGen) genMatchers(blocks []specBlock) []specMatcher {
 		var pat string
 		if typ <= 1 {
 			pat = valueTab[r.Intn(len(valueTab))]
-			if name == nameRankMetric && r.Chance(2, 3) {
-				pat = valueTab[r.Range(7, 9)]
+			if vs := present[name]; len(vs) > 0 && r.Chance(3, 4) {
+				pat = valueTab[vs[r.Intn(len(vs))]]
 			}
 		} else {
-			pat = r.Pick([]string{".*", ".+", "", "a|b", "foo|bar|prod", "a.*", "[ab]+", "a\\.b", "(foo|0)?", "z\\|y|1", "é|a", "x", ".*a.*"})
+			pat = r.Pick([]string{".*", ".+", "", "a|b", "foo|bar|prod", "a.*", "[ab]+", "a\\.b", "(foo|0)?", "z\\|y|1", "é|a", "x", ".*a.*", "foo|bar", "b|é|0"})
+			if typ == 3 && r.Chance(1, 2) {
+				pat = r.Pick([]string{"x", "a\\.b", "prod", "1|é", ""})
+			}
 		}
 		m, err := mkMatcher(typ, name, pat)
 		if err != nil {
